@@ -64,7 +64,7 @@ class Tok:
     tag: str = ""
 
     def text(self) -> str | None:
-        return {"lparen": "(", "rparen": ")", "comma": ","}.get(self.kind)
+        return {"lparen": "(", "rparen": ")", "comma": ",", "is": "is", "and": "and", "or": "or", "if": "if", "then": "then", "with": "with"}.get(self.kind)
 
     def __repr__(self) -> str:
         if self.kind == "operator":
@@ -199,6 +199,13 @@ class Registry:
     """settings.factory_manager.function"""
 
 
+class KindView:
+    """factory.operators() / factory.functions(): the registered elements of one kind, keyed by name."""
+
+    def __init__(self, kind: str):
+        self.kind = kind
+
+
 class SettingsV:
     pass
 
@@ -256,11 +263,13 @@ class AbsExec:
             return bool(v)
         if isinstance(v, (list, tuple, set, frozenset, dict)):
             return len(v) > 0
+        if isinstance(v, Opaque) and v.what.startswith("nonempty"):
+            return True
         if isinstance(v, MObj) and "__bool__" in v.fields:
             return bool(v.fields["__bool__"])
         if isinstance(v, MObj) and "__len__" in v.fields:
             return v.fields["__len__"] > 0
-        if isinstance(v, (Tok, Elem, Obj, MObj, Closure, Objects, Registry, Lin)):
+        if isinstance(v, (Tok, Elem, Obj, MObj, Closure, Objects, Registry, Lin, KindView)):
             return True
         raise self.unknown(e, f"truth value of {type(v).__name__}")
 
@@ -274,8 +283,13 @@ class AbsExec:
         return a == b
 
     def contains(self, c: Any, x: Any, e: ast.AST) -> bool:
+        if isinstance(c, MObj) and "contains" in self.hooks:
+            return bool(self.hooks["contains"](self, e, c, x))
         if isinstance(c, Objects):
             return elem_of(x) is not None
+        if isinstance(c, KindView):
+            el = elem_of(x)
+            return el is not None and el.kind == c.kind
         if isinstance(c, (set, frozenset, list, tuple)):
             return any(self.eq(x, y, e) for y in c)
         if isinstance(c, dict):
@@ -385,6 +399,11 @@ class AbsExec:
                     return base[lo:hi:st]
                 raise self.unknown(e)
             idx = self.ev(e.slice, env)
+            if isinstance(base, KindView):
+                el = elem_of(idx)
+                if el is None or el.kind != base.kind:
+                    raise Internal("KeyError", f"`{unparse(e)}` looks up a token that is not a registered {base.kind}", e)
+                return el
             if isinstance(base, Objects):
                 el = elem_of(idx)
                 if el is None:
@@ -418,6 +437,17 @@ class AbsExec:
                         return a % b
                     if isinstance(e.op, ast.Pow):
                         return a ** b
+                    if isinstance(a, int) and isinstance(b, int):
+                        if isinstance(e.op, ast.BitAnd):
+                            return a & b
+                        if isinstance(e.op, ast.BitOr):
+                            return a | b
+                        if isinstance(e.op, ast.BitXor):
+                            return a ^ b
+                        if isinstance(e.op, ast.LShift):
+                            return a << b
+                        if isinstance(e.op, ast.RShift):
+                            return a >> b
                 except ZeroDivisionError:
                     raise Internal("ZeroDivisionError", f"`{unparse(e)}`", e) from None
             if isinstance(a, Lin) or isinstance(b, Lin):
@@ -438,6 +468,10 @@ class AbsExec:
                 raise self.unknown(e, "arithmetic on symbolic values outside the linear model")
             if isinstance(a, list) and isinstance(b, int) and isinstance(e.op, ast.Mult):
                 return list(a) * b
+            container = (list, dict, MObj)
+            if (isinstance(a, container) and isinstance(b, (int, float))) or (isinstance(b, container) and isinstance(a, (int, float))):
+                if not (isinstance(e.op, ast.Mult) and (isinstance(a, list) or isinstance(b, list))):
+                    raise Internal("TypeError", f"`{unparse(e)}`: unsupported operand types ({type(a).__name__} and {type(b).__name__})", e)
             if isinstance(a, list) and isinstance(b, list) and isinstance(e.op, ast.Add):
                 return a + b
             strish = lambda v: isinstance(v, (Opaque, str, FString)) or (isinstance(v, tuple) and v and v[0] in ("joined", "escaped"))  # noqa: E731
@@ -556,6 +590,8 @@ class AbsExec:
             return ("bound", v, name)
         if isinstance(v, (Lin, int, float, FString)) and not isinstance(v, bool):
             return ("bound", v, name)
+        if isinstance(v, KindView):
+            return ("bound", v, name)
         if isinstance(v, (list, tuple, Objects, Logger, Opaque, str, dict, frozenset, set)) and not (isinstance(v, tuple) and v and v[0] in ("class",)):
             return ("bound", v, name)
         if isinstance(v, tuple) and v and v[0] in ("class",):
@@ -623,6 +659,15 @@ class AbsExec:
                 return args[0]
             if name == "len":
                 return Opaque("number of tokens")
+        if name == "isinstance" and len(args) == 2:
+            classes = args[1] if isinstance(args[1], tuple) and args[1] and isinstance(args[1][0], tuple) else (args[1],)
+            names_ = {c[1] for c in classes if isinstance(c, tuple) and len(c) == 2 and c[0] == "class"}
+            if len(names_) == len(classes):
+                if isinstance(args[0], MObj):
+                    return args[0].cls in names_ or bool(set(args[0].fields.get("__bases__", ())) & names_)
+                if args[0] is None or isinstance(args[0], (Tok, Elem, int, float, str, list, dict)):
+                    return False
+            raise self.unknown(e, "isinstance")
         if name == "locals" and env is not None:
             return {k: v for k, v in env.items() if not k.startswith("<") and not isinstance(v, Closure) and k in env.get("<locals>", env)}
         if name == "vars" and len(args) == 1 and isinstance(args[0], MObj):
@@ -839,7 +884,17 @@ class AbsExec:
             if isinstance(recv, Opaque):
                 return Opaque("call")
         if isinstance(recv, Registry):
+            if name == "operators":
+                return KindView("operator")
+            if name == "functions":
+                return KindView("function")
             return Opaque(f"registry.{name}")
+        if isinstance(recv, KindView):
+            if name in ("keys", "copy"):
+                return recv
+            if name == "get":
+                el = elem_of(args[0]) if args else None
+                return el if el is not None and el.kind == recv.kind else (args[1] if len(args) > 1 else None)
         if isinstance(recv, (Lin, int, float)) and name in ("astype", "item", "squeeze", "copy"):
             return recv
         raise self.unknown(e, f"method {name} of {type(recv).__name__}")
@@ -897,8 +952,8 @@ class AbsExec:
         elif isinstance(s, ast.AugAssign):
             cur = self.ev(ast.copy_location(ast.Name(id=s.target.id, ctx=ast.Load()), s), env) if isinstance(s.target, ast.Name) else None
             v = self.ev(s.value, env)
-            if isinstance(cur, int) and isinstance(v, int) and isinstance(s.op, (ast.Add, ast.Sub)):
-                env[s.target.id] = cur + v if isinstance(s.op, ast.Add) else cur - v  # type: ignore[union-attr]
+            if isinstance(cur, int) and isinstance(v, int) and isinstance(s.op, (ast.Add, ast.Sub, ast.BitOr, ast.BitAnd, ast.BitXor, ast.Mult)):
+                env[s.target.id] = {ast.Add: cur + v, ast.Sub: cur - v, ast.BitOr: cur | v, ast.BitAnd: cur & v, ast.BitXor: cur ^ v, ast.Mult: cur * v}[type(s.op)]  # type: ignore[union-attr]
             elif isinstance(cur, list) and isinstance(s.op, ast.Add):
                 cur.extend(self.iterate(v, s))
             elif isinstance(cur, (set, frozenset)) and isinstance(v, (set, frozenset)) and isinstance(s.op, (ast.Sub, ast.BitOr, ast.BitAnd)):
